@@ -644,8 +644,8 @@ pub enum ShaderStorage<'a, 'b> {
 // a reference to it. The goal is to avoid a heap allocation but the end
 // result is pretty ugly.
 pub fn choose_shader<'a, 'b, 'c>(ti: &Transform, src: &'b Source<'c>, alpha: f32, shader_storage: &'a mut ShaderStorage<'b, 'c>) -> &'a dyn Shader {
-    // XXX: clamp alpha
-    let alpha = (alpha * 255. + 0.5) as u32;
+    // alpha outside [0, 1] (or NaN) would overflow the fixed point arithmetic below
+    let alpha = (alpha.max(0.).min(1.) * 255. + 0.5) as u32;
 
     *shader_storage = match src {
         Source::Solid(c) => {
